@@ -172,6 +172,14 @@ pub fn long_texts(thorough: bool) -> Vec<Case> {
 
 pub fn streams() -> Vec<Box<dyn AnyStream>> {
     vec![
+        // C01's constructor-inside-constructor enumeration: formatter text and sugared text
+        Box::new(Stream::<Case> {
+            name: "nested-pairs",
+            quick: 0,
+            thorough: 0,
+            source: Source::Enum(Box::new(|_| Box::new(crate::props::c01::nested_pairs().into_iter().flat_map(|(fi, v)| (0..2u8).map(move |source| Case { fi, v: v.clone(), source, tape: vec![1, 2, 3] }))))),
+            check: Box::new(check),
+        }),
         Box::new(Stream::<Case> {
             name: "long-texts",
             quick: 0,
@@ -198,7 +206,7 @@ pub fn streams() -> Vec<Box<dyn AnyStream>> {
 
 pub const PROP: Prop = Prop {
     id: "C03",
-    rule: "cases = (format, well-formed enum value, source, tape): the text is the enum formatter's output, the lexical formatter's output for the arity-valid lexical mirror of the value (numbers also spelt `1.0` / `.5`, fixed stamps `+5`), or the value printed by the harness token printer with derived copulas (instance / property / instance-property / retrospective equivalence), padded intervals and decorated placeholders, spaced like the formatter's templates; oracle: enum parser and lexical-parse+fold both succeed, agree, and equal the source value's canonical form; non-trivial = the value's term is a compound or statement; distinct = fingerprint of (format, text)",
+    rule: "cases = (format, well-formed enum value, source, tape): the text is the enum formatter's output, the lexical formatter's output for the arity-valid lexical mirror of the value (numbers also spelt `1.0` / `.5`, fixed stamps `+5`), or the value printed by the harness token printer with derived copulas (instance / property / instance-property / retrospective equivalence), padded intervals and decorated placeholders, spaced like the formatter's templates ; stream nested-pairs = C01's constructor-inside-constructor enumeration (formatter and sugared text); stream long-texts = wide / long-name / nested values printed to 3 000–70 000 characters (thorough: 150 000); oracle: enum parser and lexical-parse+fold both succeed, agree, and equal the source value's canonical form; non-trivial = the value's term is a compound or statement; distinct = fingerprint of (format, text)",
     assumptions: &[
         "the sugar printer is trusted only when its plain rendition reproduces the formatter's output exactly for the same instance (otherwise the case is counted inconclusive)",
         "canonical form as in C01",
